@@ -64,6 +64,10 @@ func (e *Env) fail(class string) (any, bool) {
 }
 
 func (g *exGen) intLit(v int64) *Ex {
+	if g.r.Chance(2) {
+		// an integer literal that does not fit int64: an error when (and only when) it is evaluated, never a clipped value
+		return &Ex{K: "lit", Op: "badint", Text: g.r.Pick([]string{"9223372036854775808", "18446744073709551616", "0x8000000000000000", "99999999999999999999", "0o1000000000000000000000", "0b1" + strings.Repeat("0", 63)})}
+	}
 	if v < 0 {
 		// negative literals do not exist: unary minus on the magnitude (MinInt64 avoided)
 		if v == math.MinInt64 {
@@ -581,6 +585,9 @@ func toF(v any) (float64, bool) {
 func RefEval(e *Ex, env *Env) (any, bool) {
 	switch e.K {
 	case "lit":
+		if e.Op == "badint" {
+			return nil, false
+		}
 		return e.Val, true
 	case "name":
 		switch e.Text {
